@@ -747,43 +747,18 @@ func (r *runner) matches(o observed, m model) string {
 // ---- runner ----------------------------------------------------------------------------------
 
 type runner struct {
-	c        Case
-	w        *world
-	protos   []*spacesyncproto.StoreKeyValue
-	alts     []*alt
-	keyOf    map[string]string // slot id -> key (from the ids the harness can form)
-	classes  map[string]bool
-	excluded string
+	c       Case
+	w       *world
+	protos  []*spacesyncproto.StoreKeyValue
+	alts    []*alt
+	keyOf   map[string]string // slot id -> key (from the ids the harness can form)
+	classes map[string]bool
 
 	newestFirst, skipThenStore bool
 	evalWrites, faultAttempts  int
 }
 
 func (r *runner) class(c string) { r.classes[c] = true }
-
-// Known-finding switches (known_findings.json, status "known"): if the lead records one of
-// the two defects this check found as a known finding instead of repairing it, exactly
-// the inputs that trigger it are dropped at delivery time and counted as excluded.
-const (
-	sigRelabel = "setraw-keypeerid-not-bound-to-signed-bytes"
-	sigPerm    = "setraw-no-write-permission-check"
-)
-
-func (r *runner) excludedByKnown(p *spacesyncproto.StoreKeyValue, it Item) bool {
-	if strings.HasPrefix(it.M, "relabel") && vstat.KnownSignature(prop, sigRelabel) {
-		r.excluded = sigRelabel
-		return true
-	}
-	if vstat.KnownSignature(prop, sigPerm) {
-		if ri := r.w.authentic(p.Value, p.IdentitySignature, p.PeerSignature); ri.ok {
-			if ok, why := r.w.authorised(ri, len(r.w.acl.Records)); !ok && strings.HasPrefix(why, "rej-perm") {
-				r.excluded = sigPerm
-				return true
-			}
-		}
-	}
-	return false
-}
 
 // check observes store s and compares it with the surviving readings of the statement.
 func (r *runner) check(s *store, step string) error {
@@ -818,9 +793,6 @@ func (r *runner) materialise(items []Item) ([]*spacesyncproto.StoreKeyValue, err
 		p, err := r.w.mutate(r.protos[vi], r.c.Vals[vi], it)
 		if err != nil {
 			return nil, err
-		}
-		if r.excludedByKnown(p, it) {
-			continue
 		}
 		if it.M != "" {
 			r.class("mut-" + it.M)
@@ -1217,7 +1189,6 @@ func run(c Case) (out vstat.Outcome, err error) {
 	}
 	out.Sig = vstat.HashJSON(c)
 	out.NonTrivial = r.newestFirst && r.skipThenStore
-	out.Excluded = r.excluded
 	for k := range r.classes {
 		out.Classes = append(out.Classes, k)
 	}
